@@ -244,3 +244,46 @@ def t4(ctx):
                         if exits:
                             found = True
         yield Ob(key_of("C07-T4", b.path, "bounded-retry"), found, "retry counter += 1 on the back edge and the loop exits on counter == max_retries - 1", b.loc())
+
+
+@rule("C07-T5", "C07", 6, "the in-band marker is unambiguous: the size half REMOVED (0) of a linked node word is produced only by a mark CAS - every node published by "
+      "try_new_segment has data_size >= 1, the own-header store packs exactly that data_size, and the link CAS keeps the predecessor's size which was compared != REMOVED "
+      "(otherwise every traversal waits for ever on a node nobody is unlinking)")
+def t5(ctx):
+    from order import Order
+    b = ctx.facts.one(r"^sync::Arena::try_new_segment$")
+    ev, res = ctx.eval(b)
+    somes = [r for r in res.log if r["kind"] == "ret0" and not r["chain"] and tag(r["value"]) == "variant" and r["value"][2] == "Some"]
+    if len(somes) != 1:
+        yield Ob(key_of("C07-T5", b.path, "some-return"), False, "expected one Some return", b.loc())
+    else:
+        ds = struct_get(somes[0]["value"][3][0], "data_size")
+        order, fs = order_for(ctx, ev, somes[0])
+        yield Ob(key_of("C07-T5", b.path, "published-size-not-marker"), order.le(const(1), ds), "data_size = %s >= 1 on the accept path (REMOVED = 0 is never a real size)" % short(ds, 60), ctx.loc(somes[0]))
+    for name in ("optimistic_dealloc", "pessimistic_dealloc"):
+        b, ev, res = sync_eval(ctx, name)
+        seg = [e for e in res.log if e["kind"] == "call" and not e["chain"] and e["callee"].endswith("::try_new_segment")]
+        stores = [e for e in res.log if e["kind"] == "call" and e.get("atomic") == "store" and tag(e.get("new")) == "pack"]
+        ok = len(seg) == 1 and len(stores) == 1
+        if ok:
+            want = ("field", ("payload", seg[0]["result"], "Some", 0), "data_size")
+            got = canon(stores[0]["new"][1])
+            ok = got == want or show(got) == show(want)
+        yield Ob(key_of("C07-T5", b.path, "own-word-size"), ok, "own header = pack(segment.data_size, ..): %s" % (short(stores[0]["new"], 90) if stores else "no store"), ctx.loc(stores[0]) if stores else b.loc())
+        links = [e for e in cas_entries(res) if classify_cas(res, e) == "link"]
+        okl = len(links) == 1
+        if okl:
+            e = links[0]
+            fs = ctx.facts_of(ev, e)
+            hi = ("hi", e["expected"])
+            okl = e["new"][1] == hi and any(f[0] == "cmp" and f[1] == "Ne" and ((f[2] == hi and is_removed(f[3])) or (f[3] == hi and is_removed(f[2]))) for f in fs)
+        yield Ob(key_of("C07-T5", b.path, "link-keeps-unmarked-size"), okl, "link CAS writes pack(hi(expected), new node) under hi(expected) != REMOVED", ctx.loc(links[0]) if links else b.loc())
+    # the marker value itself
+    vals = set()
+    for name in MARKING:
+        b, ev, res = sync_eval(ctx, name)
+        for e in cas_entries(res):
+            if classify_cas(res, e) == "mark":
+                vals.add(e["new"][1])
+    okv = len(vals) == 1 and all(len(v) > 2 and v[2] == 0 for v in vals)
+    yield Ob(key_of("C07-T5", "sync", "marker-is-zero"), okv, "REMOVED_SEGMENT_NODE = 0 in every mark CAS (so data_size >= 1 keeps real sizes apart from the marker)", None)
